@@ -208,6 +208,7 @@ def worker_main(argv):
     t_start = time.time()
     deadline = spec.get('deadline_s')
     executed = []
+    n_minimised = [0]
     for i in indices:
         if deadline and time.time() - t_start > deadline:
             agg['extra']['stopped_at_deadline'] = True
@@ -260,10 +261,14 @@ def worker_main(argv):
                     'minimiser_executions': 0, 'detail': v['detail'], 'step': v['step'],
                     'digest': res.digest(), 'log': res.log[-40:]}
                 continue
-            faulthandler.dump_traceback_later(per_run_cap * 6, exit=True)
-            small, nexec = minimise(eng, check, case, sig, sandbox,
-                                    budget_s=spec.get('minimise_budget_s', 8.0))
-            faulthandler.cancel_dump_traceback_later()
+            if n_minimised[0] >= spec.get('max_minimised_per_worker', 3):
+                small, nexec = case, 0      # enough minimised examples from this worker: keep the history as it ran
+            else:
+                n_minimised[0] += 1
+                faulthandler.dump_traceback_later(per_run_cap * 6, exit=True)
+                small, nexec = minimise(eng, check, case, sig, sandbox,
+                                        budget_s=spec.get('minimise_budget_s', 8.0))
+                faulthandler.cancel_dump_traceback_later()
             r2 = execute_case(eng, check, small, sandbox)
             det = [x for x in r2.violations if x['signature'] == sig]
             agg['violations'][sig] = {
